@@ -10,6 +10,7 @@ func init() {
 	vfRegister("VfRIB_q1", VfRIB_q1)
 	vfRegister("VfRIB_q2", VfRIB_q2)
 	vfRegister("VfRIB_qNoFwd", VfRIB_qNoFwd)
+	vfRegister("VfRIB_q3", VfRIB_q3)
 	vfRegister("VfRIB_t1", VfRIB_t1)
 	vfRegister("VfRIB_t2", VfRIB_t2)
 	vfRegister("VfRIB_tOrder", VfRIB_tOrder)
@@ -51,4 +52,10 @@ func VfRIB_t2() {
 func VfRIB_tOrder() {
 	vfRIBRun(vfRunCfg{pre: vfPreCfg{nNH: 1, nNHG: 1, nHeld: 2, members: 1, topKinds: []int{vfKV4}}, fixLow: true, steps: 1, members: 1,
 		typLo: 1, typHi: 2, kinds: []int{vfKNH, vfKNHG}, mapOrder: true})
+}
+
+// q3: a held REPLACE whose key has been deleted meanwhile (it must fail exactly once when it is
+// retried), next to 1 next-hop and 1 group; one symbolic operation.
+func VfRIB_q3() {
+	vfRIBRun(vfRunCfg{pre: vfPreCfg{nNH: 1, nNHG: 1, nStale: 1, members: 1, topKinds: vfTopQ}, fixLow: true, steps: 1, members: 1})
 }
